@@ -114,7 +114,7 @@ CLAIMED = {
          'every public call preserves coherence of the published state and so does every history of any length (induction over the history); whenever validate(), an unprotected IK or forward FK, or validate(True) reports valid, every enabled constraint holds of the state left behind; the Jacobian/force queries return both plates to the poses they found. For the reversed FK (over the reals, rigid plate poses): every constraint is invariant under moving both plates by one rigid motion, validate() takes no action on a state that meets every enabled constraint, hence the verdict a reversed FK returns is true of the re-expressed state it leaves, with the top plate back where it was. '
          'The theorems hold for every scalar instance, including the Float instance that is run. The model is tied to sp_model.py by executing random histories on the real SP and on the model (solver outputs recorded in the harness) and comparing plates, joints, lengths, relative transform and verdicts after every call; coherence, constraints and purity are also evaluated directly on the real object. '
          'The exception fallback between the two FK solvers and what FK does after an upside-down repair are modelled (the repaired pose itself is an oracle input); the verdict of a reversed or protected FK is decided on the implementation only.',
-         'Trusted: Lean kernel, solver recording by monkeypatching inside the harness process, independent constraint formulas of the harness.',
+         'Trusted: Lean kernel, solver recording by monkeypatching inside the harness process, independent constraint formulas of the harness. Two known findings (relative rotation inside the 1e-6 cut-off band; a plate pose within 1e-3 of a half turn) are the floating-point side of the relative-transform clause: the theorems are exact, the published matrix is off by 2e-7 / 2e-9 there.',
          'Lean 4 invariant by induction over operation histories with oracle solver outputs + history-level correspondence with the real SP + direct coherence/constraint/purity falsifier',
          'DESIGN.md section 5 C10'),
  'C09': ('Partial proof: machine-checked theorems (Lean 4) about a model of SPIKinSpace and of the whole SPFKinSpaceR loop: IK lengths are the joint-to-joint distances; moving both plates by one rigid motion leaves them unchanged, so they depend only on inv(bottom)*top; '
